@@ -279,6 +279,8 @@ InitState == [cache |-> [k \in 1..2 |-> [who |-> "", age |-> 0]]]
 (*   fits      answer length <= request length (request-sized buffer)      *)
 (*   nstat     exactly one statistics entry per call                       *)
 (*   statresp  the entry's response kind equals what was actually done     *)
+(*   stat.nts stat.ver stat.resp stat.reason  fields of the entry (either  *)
+(*             buffer); the reason is a matter of the policy path (C15)    *)
 (*   hdr       header of the answer equals the symbolic expectation        *)
 (*   canary    no marked request content found in the answer               *)
 (*   cookies   fresh cookies fit, decode under the current key set to the  *)
@@ -293,13 +295,13 @@ ConeKey(s, a) == IF a.t = "Tick" THEN "tick" ELSE IF a.t = "Mut" THEN "mut" ELSE
 ConeKeyStr(k) == k
 ConesOf(k) ==
   LET h == k \in {"plain", "nts"} IN
-  [C15 |-> IF h THEN {"bresp", "panic"} ELSE {},
+  [C15 |-> IF h THEN {"bresp", "stat.reason", "panic"} ELSE {},
    C16 |-> IF h THEN {"fits", "len", "panic"} ELSE {},
    C17 |-> IF h THEN {"same", "resp", "len", "blen", "panic"} ELSE {},
    C18 |-> IF h THEN {"echo", "hdr", "canary", "marker", "panic"} ELSE {},
    C19 |-> IF k = "nts" THEN {"bresp", "sealed", "nc", "cookies", "panic"} ELSE {},
    C20 |-> IF h THEN {"cache", "limited", "panic"} ELSE {"cache"},
-   C21 |-> IF h THEN {"nstat", "statresp", "stat", "bstat", "panic"} ELSE IF k = "mut" THEN {"nstat", "statresp"} ELSE {},
+   C21 |-> IF h THEN {"nstat", "statresp", "stat.nts", "stat.ver", "stat.resp", "panic"} ELSE IF k = "mut" THEN {"nstat", "statresp"} ELSE {},
    C22 |-> IF h \/ k = "mut" THEN {"panic"} ELSE {}]
 Cones(s, a) == ConesOf(ConeKey(s, a))
 ConeTable == [k \in ConeKeys |-> ConesOf(k)]
